@@ -21,7 +21,7 @@ RULE = (
     "Non-trivial = a sequence on a stack of depth >=2 that goes past a cutoff and hits the precision band at least twice; "
     "distinct = distinct (stack, operation sequence) digests."
 )
-ASSUMPTIONS = ["objective values are finite (no NaN: worse_than draws a coin for NaN pairs by design)", "StatsGatheringProblem's timing values are not compared, only their number"]
+ASSUMPTIONS = ["objective values are finite or +/-inf (no NaN: worse_than draws a coin for NaN pairs by design)", "StatsGatheringProblem's timing values are not compared, only their number"]
 
 KINDS = ["count", "cutoff", "precision", "stats"]
 
@@ -197,7 +197,7 @@ S_SPEC = st.one_of(
     st.builds(lambda o, e: {"kind": "precision", "opt": o, "eps": e}, st.sampled_from([0.0, 1.5, -2.0]), st.sampled_from([0.0, 1e-9, 0.25, 1.0])),
 )
 S_VALUE = st.one_of(
-    st.sampled_from([0.0, 1.5, -2.0, 0.25, -0.25, 1.0, 1.75, 1.25, 2.5, -3.0, 1e-9, -1e-9, 0.2500000001, 5.0]),
+    st.sampled_from([0.0, 1.5, -2.0, 0.25, -0.25, 1.0, 1.75, 1.25, 2.5, -3.0, 1e-9, -1e-9, 0.2500000001, 5.0, float("inf"), float("-inf")]),
     st.floats(-6, 6, allow_nan=False),
 )
 
